@@ -26,6 +26,7 @@ type Gen struct {
 	Classes map[string]int // shape-class counters: "<type>/<field>/<class>" -> hits
 	Small   bool           // no long lists / long texts (keeps checksum evaluation in TLC cheap)
 	Big     int            // > 0: every list gets about this many elements and numbers are 0xFF-heavy (long frames)
+	AllOnes bool           // with Big: every number is all ones (long uninterrupted runs of 0xFF on the wire)
 }
 
 func NewGen(seed int64) *Gen {
@@ -64,7 +65,7 @@ var floatPatterns64 = [][]int{
 func (g *Gen) intBytes(t, fname string, f *Field) []int {
 	w := f.W
 	c := g.R.Intn(12)
-	if g.Big > 0 && g.R.Intn(3) > 0 {
+	if g.Big > 0 && (g.AllOnes || g.R.Intn(3) > 0) {
 		c = 1 // all ones
 	}
 	if (f.Go == "f32" || f.Go == "f64") && c < 4 {
